@@ -425,6 +425,75 @@ func refPaddingSweepUnit(libIsClient bool) harness.Unit {
 // refReceiveUnit: the library writes payloads of many sizes; the reference peer authenticates every
 // record with its own keys, checks sequence numbers (implicitly, through the MAC), padding, sizes
 // and the freshness of every explicit IV / nonce.
+// shortRand hands out ONE byte per Read: legal for an io.Reader, and what Config.Rand may be.
+type shortRand struct{ inner io.Reader }
+
+func (s shortRand) Read(p []byte) (int, error) {
+	if len(p) > 1 {
+		p = p[:1]
+	}
+	return s.inner.Read(p)
+}
+
+// refReceiveShortRandUnit: the receive-direction checks with a Config.Rand that returns one byte per
+// Read; beyond "no IV twice", consecutive explicit IVs of a CBC suite must differ in at least 8 of
+// their 16 positions (an IV refilled only in its first bytes keeps the rest of the previous one).
+func refReceiveShortRandUnit(suite uint16, libIsClient bool) harness.Unit {
+	return harness.Unit{Name: fmt.Sprintf("keyed-peer-receive-short-reading-rand/%04x/library-client=%v", suite, libIsClient), Run: func(c *harness.Ctx) {
+		var writes [][]byte
+		var want []byte
+		for i, n := range []int{1, 100, 1000, 5000, 40000, 7, 16384, 3, 3, 3, 3, 3, 3, 3, 3} {
+			w := pu.Msg(30+i, n)
+			writes = append(writes, w)
+			want = append(want, w...)
+		}
+		var peer *gmref.Peer
+		data := func(q *gmref.Peer) error {
+			peer = q
+			err := q.ReadApp(0)
+			if err == gmref.ErrClosed {
+				return nil
+			}
+			return err
+		}
+		cfg := libConfig(suite, libIsClient)
+		cfg.Rand = shortRand{cfg.Rand}
+		o := tlsk.RunLibVsRef(cfg, libIsClient, tlsk.App{Writes: writes, Expect: -1}, refIdentity(suite, libIsClient), 59, refSetup(suite), &gmref.Script{Data: data}, nil)
+		tag := fmt.Sprintf("suite=%04x library-client=%v Config.Rand returns one byte per Read", suite, libIsClient)
+		c.Add("evaluations", int64(len(writes)))
+		c.DistinctS("nontrivial", tag)
+		if o.Lib.Panic != nil || peer == nil || !o.Lib.Complete {
+			c.Violate("keyed-peer-receive:session-failed:short-reading-rand", fmt.Sprintf("[%s] %s", tag, o.Describe()), nil, tag)
+			return
+		}
+		if o.Ref.Res.Err != nil || !bytes.Equal(peer.Received, want) {
+			c.Violate(fmt.Sprintf("keyed-peer-receive:stream-differs:short-reading-rand:%04x", suite), fmt.Sprintf("[%s] reference peer: %v after %d of %d bytes", tag, o.Ref.Res.Err, len(peer.Received), len(want)), nil, tag)
+			return
+		}
+		seen := map[string]bool{}
+		for i, iv := range peer.PeerIVs {
+			if seen[string(iv)] {
+				c.Violate(fmt.Sprintf("keyed-peer-receive:iv-repeats:short-reading-rand:%04x", suite), fmt.Sprintf("[%s] explicit IV/nonce of protected record %d repeats an earlier one", tag, i), nil, tag)
+				return
+			}
+			seen[string(iv)] = true
+			if i > 0 && isCBCSuite(suite) && len(iv) == 16 && len(peer.PeerIVs[i-1]) == 16 {
+				same := 0
+				for k := range iv {
+					if iv[k] == peer.PeerIVs[i-1][k] {
+						same++
+					}
+				}
+				if same > 8 {
+					c.Violate(fmt.Sprintf("keyed-peer-receive:iv-mostly-stale:%04x", suite), fmt.Sprintf("[%s] the explicit IV of record %d equals the previous record's IV in %d of 16 positions (%x / %x)", tag, i, same, peer.PeerIVs[i-1], iv), nil, tag)
+					return
+				}
+			}
+		}
+		c.Add("records_authenticated_by_reference", int64(len(peer.RecLens)))
+	}}
+}
+
 func refReceiveUnit(suite uint16, libIsClient bool, thorough bool) harness.Unit {
 	return harness.Unit{Name: fmt.Sprintf("keyed-peer-receives/%04x/library-client=%v", suite, libIsClient), Run: func(c *harness.Ctx) {
 		var sizes []int
@@ -578,7 +647,7 @@ func refUnits(tier string) []harness.Unit {
 			for p := 0; p < parts; p++ {
 				u = append(u, refCraftedUnit(s, lc, p, parts))
 			}
-			u = append(u, refReceiveUnit(s, lc, tier == "thorough"), refJumpUnit(s, lc), transportFaultUnit(s, lc), readTimeoutUnit(s, lc))
+			u = append(u, refReceiveUnit(s, lc, tier == "thorough"), refJumpUnit(s, lc), transportFaultUnit(s, lc), readTimeoutUnit(s, lc), refReceiveShortRandUnit(s, lc))
 		}
 	}
 	u = append(u, refPaddingSweepUnit(true), refPaddingSweepUnit(false))
